@@ -182,6 +182,8 @@ def _case(seed: int) -> Dict[str, Any]:
     from hv import gen, rt, synth
 
     kw = dict(n_threads=1 + seed % 2, n_streams=1 + seed % 3, steps=seed % 3, p_missing_kernel=0.2, p_orphan_kernel=0.2, p_sync=0.15)
+    if seed % 4 == 1:
+        kw["p_skew"] = 0.5  # device clock behind the host clock: an activity may start before its launch call (the property does not constrain timestamps)
     per_rank = gen.gen_trace_set(seed, n_ranks=1 + (seed % 5 == 0), **kw)
     # device-side synchronisation records on stream -1 (as Kineto writes them), sharing the correlation id of a sync call
     for rk, evs in per_rank.items():
